@@ -9,7 +9,7 @@ from checks_config import CHECKS
 binary = f"/verif/.build/{CHECKS[pid]['pkg']}.{variant}.test"
 doc = json.load(open(path))
 sig0 = doc["sig"]
-env = dict(os.environ, VERIF_KNOWN="/dev/null")
+env = dict(os.environ, VERIF_KNOWN="/verif/empty_findings.json")
 def digest(case, var):
     d = dict(doc); d["case"] = case
     f = tempfile.mktemp(suffix=".json"); json.dump(d, open(f, "w"))
